@@ -28,6 +28,7 @@ type mbtAct struct {
 	Ok   bool   `json:"ok"`
 	C    string `json:"c"`
 	H    int    `json:"h"`
+	K    string `json:"k"` // Deliver: the abstract content the specification chose (AnsSet)
 }
 
 type blkID struct {
@@ -326,7 +327,7 @@ func replayOne(w *world, cfg worldCfg, beh []mbtStep, seed int64, stats map[stri
 			if n != s.iterN {
 				return fail(i, "p2psync:replay:requested-height", fmt.Sprintf("the %s request asks for block %d, the height read at the start of the iteration gives %d", a.Part, n, s.iterN), s.iterN, n)
 			}
-			plan := cs.peer.answer(a.Part, n, s.r, s.w)
+			plan := cs.peer.answer(a.Part, n, s.r, s.w, a.K)
 			s.variants = append(s.variants, fmt.Sprintf("%s/%s:%s:%s", a.Part, cs.peer.name, cs.peer.class, plan.variant))
 			stats["variant:"+cs.peer.class+":"+strings.SplitN(plan.variant, ".", 2)[0]]++
 			// a silent peer is noticed at the read deadline, which is one clock for all five streams:
